@@ -184,6 +184,9 @@ pub struct Pool {
     pub xl: String,
     /// one input in `xl_den` is the very long recipe (it is expensive)
     pub xl_den: u32,
+    /// upper bound on simulated threads per scenario (1 = the single-thread fallback used when a
+    /// blocking std primitive held across a scheduling point stalls multi-thread executions)
+    pub max_threads: usize,
 }
 
 impl Pool {
@@ -249,7 +252,7 @@ impl Pool {
                 break;
             }
         }
-        Pool { inputs, xl: xl_input.unwrap_or_default(), xl_den: 1500 }
+        Pool { inputs, xl: xl_input.unwrap_or_default(), xl_den: 1500, max_threads: 4 }
     }
 }
 
@@ -401,7 +404,7 @@ pub fn gen_scenario(run_seed: u64, pool: &Pool) -> Scenario {
         inputs.push(s);
     }
     // threads and ops
-    let nt = *r.pick(&[1usize, 2, 2, 2, 3, 3, 4]);
+    let nt = (*r.pick(&[1usize, 2, 2, 2, 3, 3, 4])).min(pool.max_threads.max(1));
     let twins = twin_pairs.clone();
     let mut threads: Vec<Vec<Op>> = Vec::new();
     let mut hard_budget = 2;
@@ -501,7 +504,7 @@ pub fn gen_scenario(run_seed: u64, pool: &Pool) -> Scenario {
                             }
                             7 if hard_budget > 0 => {
                                 hard_budget -= 1;
-                                WriteFault::Zero { call }
+                                if fr.chance(1, 2) { WriteFault::Zero { call } } else { WriteFault::Panic { call: call % 6 } }
                             }
                             _ => WriteFault::Short { call, n: 1 },
                         };
